@@ -104,6 +104,7 @@ func main() {
 			emitSelftest(res, *selfOut)
 			return
 		}
+		ir.SetPredicateEffects(ir.DefaultEffects(p))
 		fn := props.Registry[*prop]
 		if fn == nil {
 			os.Exit(2)
@@ -171,6 +172,7 @@ func main() {
 		props.Dump(p, *dump)
 		return
 	}
+	ir.SetPredicateEffects(ir.DefaultEffects(p))
 	fn := props.Registry[*prop]
 	if fn == nil {
 		fmt.Fprintf(os.Stderr, "lkcheck: unknown property %q\n", *prop)
